@@ -244,6 +244,25 @@ def std_configs(rng, thorough, top, compiled_both=True):
     return out
 
 
+def eof_padding_variant(case, cfg, inp, offset, got):
+    """If zero-padding the input by k < 16 bytes makes the model read `got`, and those k bytes are padding only
+    (data-bit mask empty there), return the model outcome for the padded input."""
+    for k in range(1, 16):
+        padded = inp + bytes(k)
+        exp = expected_parse(case, cfg, padded, offset)
+        if exp[0] != "ok" or lib.nan_clean(model.clean(exp[1])) != got:
+            continue
+        try:
+            dm, mask = model.dump(case["top"], exp[1], cfg)
+        except Exception:  # noqa: BLE001
+            return None
+        missing = mask[len(inp) - offset:]
+        if len(dm) == len(padded) - offset and not any(missing):
+            return exp
+        return None
+    return None
+
+
 def judge_parse(ctx, case, cfgd, cfg, T, inp, offset=0, label="parse", sig_prefix=""):
     """Compare the real reader's outcome on (inp, offset) with the reference model.  Returns (lib outcome, expected)."""
     top = case["top"]
@@ -263,6 +282,13 @@ def judge_parse(ctx, case, cfgd, cfg, T, inp, offset=0, label="parse", sig_prefi
         want = lib.nan_clean(model.clean(exp[1]))
         if r[0] == "ok":
             got, e = norm_or_err(r[1], top)
+            if not e and got != want and "eof_partial" in exp[3]:
+                # the input ends inside the last element of an [EOF] array.  If only that element's trailing
+                # padding is missing (all of its data-carrying bytes are there) either outcome is acceptable.
+                alt = eof_padding_variant(case, cfg, inp, offset, got)
+                if alt is not None:
+                    ctx.event("accepted_last_eof_element_without_its_padding")
+                    return r, alt
             if e:
                 viol("norm", "unexpected-value-kind", error=e)
             elif got != want:
